@@ -1096,9 +1096,9 @@ class DropnaFrame(Blockwise):
                 # Don't add unnecessary Projections
                 return
 
-            return type(parent)(
-                type(self)(self.frame[columns], *self.operands[1:]),
-                *parent.operands[1:],
+            # We are not necessarily the first operand of our parent
+            return parent.substitute(
+                self, type(self)(self.frame[columns], *self.operands[1:])
             )
 
 
@@ -1888,9 +1888,8 @@ class Filter(Blockwise):
         if isinstance(self.predicate, Or):
             result = rewrite_filters(self.predicate)
             if result._name != self.predicate._name:
-                return type(parent)(
-                    type(self)(self.frame, result), *parent.operands[1:]
-                )
+                # We are not necessarily the first operand of our parent
+                return parent.substitute(self, type(self)(self.frame, result))
 
         if isinstance(parent, (FilterAlign, Filter)) and not isinstance(
             self.frame, (FilterAlign, Filter)
